@@ -386,6 +386,8 @@ fn same_content(pm: &mut PMTiles<Cursor<Vec<u8>>>, want: &Model, what: &str) -> 
     for k in [want.keys().next_back().map_or(0, |k| k + 1), u64::MAX] { if pm.get_tile_by_id(k).map_err(|e| e.to_string())?.is_some() { return Err(format!("{what}: lookup({k}) of an absent id returned bytes")); } }
     Ok(())
 }
+/// many tiles with irregular ids and sizes: their directory does not compress well, so compressed archives need leaf directories too
+fn noisy_tiles(n: usize, r: &mut Rng) -> Model { let mut m = Model::new(); let mut id = 0u64; for _ in 0..n { id += 1 + r.below(900); let l = 1 + r.below(23) as usize; m.insert(id, (0..l).map(|_| r.below(256) as u8).collect()); } m }
 fn big_tiles(n: usize) -> Model { (0..n as u64).map(|i| (i * 3 + (i % 7), vec![(i % 251) as u8, (i / 251) as u8, 7])).collect() }
 
 pub fn c01_c02_c18() -> Result<u64, String> {
@@ -393,7 +395,7 @@ pub fn c01_c02_c18() -> Result<u64, String> {
     let mut n = 0u64;
     let mut cases: Vec<(Model, Compression, u64)> = Vec::new();
     for round in 0..48 { cases.push((gen_tiles(&mut r, [0, 1, 2, 5, 9, 40][round % 6], 1 << (round % 30)), COMPS[round % 4], [0u64, 1, 10, 127, 4096, 77][round % 6])); }
-    cases.push((big_tiles(6000), Compression::None, 0)); cases.push((big_tiles(4080), Compression::None, 24)); cases.push((big_tiles(30000), Compression::GZip, 3));
+    cases.push((big_tiles(6000), Compression::None, 0)); cases.push((big_tiles(4080), Compression::None, 24)); cases.push((big_tiles(30000), Compression::GZip, 3)); cases.push((noisy_tiles(12000, &mut r), Compression::GZip, 11)); cases.push((noisy_tiles(9000, &mut r), Compression::Brotli, 0));
     {   // a pre-filled stream that is LONGER than P + archive: the writer must leave the position at the archive's end
         let tiles = gen_tiles(&mut r, 4, 2);
         for p in [0u64, 10] { n += 1;
@@ -750,14 +752,15 @@ pub fn c13() -> Result<u64, String> {
         }
     }
     {   // compressed leaf directories read through very small fragments (a decoder has not consumed its trailer when the last entry is out)
-        let tiles = big_tiles(5000);
+        let tiles = noisy_tiles(12000, &mut r);
         for c in [Compression::GZip, Compression::ZStd] {
             let (want, _) = write_at(build(&tiles, c, &Default::default()), 0).map_err(|e| e.to_string())?;
+            if parse_header(&want)?.leaf_len == 0 { return Err(format!("generator bug: the {c:?} archive of {} tiles has no leaf directories", tiles.len())); }
             for sched in [vec![1usize], vec![7]] { n += 1;
                 let rd = Frag { inner: Cursor::new(want.clone()), sched: sched.clone(), k: 0 };
                 let mut pm = PMTiles::from_reader(rd).map_err(|e| format!("open of a {c:?} archive with leaf directories through short reads {sched:?}: {e}"))?;
                 if pm.num_tiles() != tiles.len() { return Err(format!("a {c:?} archive with leaf directories opened through short reads {sched:?} has {} tiles instead of {}", pm.num_tiles(), tiles.len())); }
-                for (id, v) in tiles.iter().step_by(700) { if pm.get_tile_by_id(*id).map_err(|e| e.to_string())?.as_ref() != Some(v) { return Err(format!("tile {id} differs through short reads {sched:?} ({c:?})")); } }
+                for (id, v) in tiles.iter().step_by(4000) { if pm.get_tile_by_id(*id).map_err(|e| e.to_string())?.as_ref() != Some(v) { return Err(format!("tile {id} differs through short reads {sched:?} ({c:?})")); } }
             }
         }
     }
